@@ -166,7 +166,9 @@ def main(tier):
              for i, st in enumerate(("enc", "comp+enc"))] + jobs[:6]
     jp2 = os.path.join(wd, "plain2.jsonl")
     write_jsonl(jp2, jobs2)
-    mbt("s20", "conf", "plaintext", jp2, os.path.join(wd, "plain2.json"))
+    # (chunks of 64 bytes: what follows a failed chunk emission starts with a 17-byte block header; 20-byte chunks would
+    # leave no room for a recognisable marker)
+    mbt("s64", "conf", "plaintext", jp2, os.path.join(wd, "plain2.json"))
     pl2 = json.load(open(os.path.join(wd, "plain2.json")))
     pl["violations"] += pl2["violations"]
     pl["runs"] += pl2["runs"]
